@@ -11,7 +11,15 @@ extra3 = (" In this round aim at what ordinary input generators do not reach: ra
           "numerical edge cases inside the documented domain (constant columns, huge or tiny magnitudes, exact ties), and state that "
           "outlives a call (caches, module-level or class-level variables, mutable default arguments, in-place modification of inputs "
           "or of fitted attributes). At least TWO of the three mutants must be of these kinds, and each must still satisfy (a) and (b).")
-extra = extra3 if rnd.startswith("r3") else "" if not rnd else (" In this round prefer the LESS obvious sites: helper and utility code, validation, base classes, "
+extra4 = (" In this round write the kind of defect that slips in with a well-meant REFACTOR: vectorising or batching a loop (chunk sizes, "
+          "exclusive range stops), replacing a loop by a NumPy / pandas call with subtly different semantics (stable vs unstable sort, "
+          "argmax / argsort on ties, np.isclose / allclose tolerances, integer vs true division, np.minimum / np.maximum argument "
+          "conventions, in-place operations on views or aliased arrays, default dtypes, label-based vs positional indexing), early exits "
+          "and fast paths whose precondition is almost always true, hoisting a computation out of a loop or into __init__, changing a "
+          "default or a keyword at one of two call sites, merging two similar code paths, or tightening / loosening an input check. "
+          "Avoid plain single-token boundary slips (< vs <=) unless they are hidden inside such a refactor. Each mutant must still "
+          "satisfy (a) and (b), and at least one should only manifest for a combination of two non-default options.")
+extra = extra4 if rnd.startswith("r4") else extra3 if rnd.startswith("r3") else "" if not rnd else (" In this round prefer the LESS obvious sites: helper and utility code, validation, base classes, "
                             "penalty / threshold construction, conversions, caching and state handling, parameter plumbing between "
                             "classes - rather than the most central line of the main algorithm loop - and make at least TWO of the "
                             "three mutants need a rare input or boundary configuration to manifest.")
